@@ -133,13 +133,14 @@ def rule_B1(ctx):
     ok = rm is not None and rm[0] == "join:" and rm[1] == dec.args.args[0].arg and rm[2].replace(" ", "") == "chr(_fast_akai_to_ascii_byte(_c0))"
     ctx.ob("B1", dec, "decoding converts every byte in order", ok, f"{rm}", inst="decode-wiring")
     ca = ctx.fn(AS, "char_akai_to_ascii", "B1")
-    ctx.ob("B1", ca, "char_akai_to_ascii uses the byte decoder", "_fast_akai_to_ascii(bytes_in)" in full(ca), "", inst="decode-entry")
+    from .util import return_keys as _rk
+    ctx.ob("B1", ca, "char_akai_to_ascii uses the byte decoder", _rk(ctx, ca, "B1") == {f"_fast_akai_to_ascii({ca.args.args[0].arg})"}, "", inst="decode-entry")
     ad = ctx.fn(AS, "AkaiString._decode", "B1")
     c = [x for x in own_nodes(ad) if isinstance(x, ast.Call) and norm(x.func) == "char_akai_to_ascii"]
     ok = len(c) == 1 and find_try_handler(c[0], ad, {"InvalidCharacter"}) is not None and "ConstructError" in raises_in(find_try_handler(c[0], ad, {"InvalidCharacter"}).body)
     ctx.ob("B1", ad, "an invalid name byte becomes a ConstructError (the entry is skipped, not the whole listing)", ok, "", inst="AkaiString-decode")
     ae = ctx.fn(AS, "AkaiString._encode", "B1")
-    ctx.ob("B1", ae, "AkaiString encodes through char_ascii_to_akai", "char_ascii_to_akai(obj)" in full(ae), "", inst="AkaiString-encode")
+    ctx.ob("B1", ae, "AkaiString encodes through char_ascii_to_akai", _rk(ctx, ae, "B1") == {f"char_ascii_to_akai({ae.args.args[1].arg})"}, "", inst="AkaiString-encode")
 
 
 def _symbol_map(ctx, fn, sf, df, label, maps=None):
@@ -355,7 +356,10 @@ def rule_B2(ctx):
     ctx.ob("B2", sd, "ScaleDegree A..G = 0..6", ok, f"{mem}", inst="ScaleDegree")
     s1 = ctx.fn(MIDI, "ScaleDegree.__str__", "B2")
     s2 = ctx.fn(MIDI, "ScaleDegree.from_string", "B2")
-    ok = "chr(self.value + ord('A'))" in full(s1) and "cls(ord(input) - ord('A'))" in full(s2)
+    from .util import return_keys as _rk2
+    ip2 = s2.args.args[1].arg
+    ok = _rk2(ctx, s1, "B2") == {"chr(65 + self.value)"} and _rk2(ctx, s2, "B2") <= {f"cls(-65 + ord(({ip2}.upper()).strip()))", f"cls(-65 + ord(({ip2}.strip()).upper()))", f"cls(-65 + ord({ip2}))"} \
+        and bool(_rk2(ctx, s2, "B2"))
     ctx.ob("B2", s1, "degree <-> letter are inverse shifts by ord('A')", ok, "", inst="degree-letter")
 
 
